@@ -1,57 +1,90 @@
-"""C20 tables: the separator tuples tried by `load_image` (text branch) and accepted by `load_table`,
-and the values of the `Alignment` enum, read from today's source (ast)."""
-import ast
+"""C20 tables, obtained by *running* today's loaders on tiny generated files (`extract.run_in_repo`):
 
-from extract import find_class, find_func, llist, parse
+  imageSeparators : which of a set of candidate separator characters `load_image` accepts for a 2 x 2 `.txt` image
+                    (read back with the right shape and values)
+  tableSeparators : the same for `load_table` on a 3 x 2 `.txt` table
+  alignments      : which of a set of candidate keywords `fit_into_array(align=...)` accepts
+  alignOffsets    : for each accepted keyword, where a 1 x 1 marker lands in outputs larger / smaller than inputs
+                    (input shape, output shape, row, col of the marker = the offset the keyword stands for)
+"""
+from extract import llist, lstr, run_in_repo
 
 FALLBACK = ("def imageSeparators : List Char := []\n"
             "def tableSeparators : List Char := []\n"
-            "def alignments : List String := []")
+            "def alignments : List String := []\n"
+            "def alignOffsets : List (String × (Nat × Nat) × (Nat × Nat) × (Int × Int)) := []")
+
+PROBE = r"""
+import json, os, tempfile, warnings
+warnings.filterwarnings("ignore")
+import numpy as np
+from pyxel.inputs import load_image, load_table
+from pyxel.util import fit_into_array
+
+CAND = ["\t", " ", ",", "|", ";", ":", "/", "&", "!", "~"]
+tmp = tempfile.mkdtemp()
+img = np.array([[1.5, 2.0], [3.0, 4.25]])
+tab = np.array([[1.5, 2.0], [3.0, 4.25], [5.0, 6.5]])
+img_ok, tab_ok = [], []
+for k, sep in enumerate(CAND):
+    p = os.path.join(tmp, f"i{k}.txt")
+    np.savetxt(p, img, delimiter=sep, fmt="%.17g")
+    try:
+        a = np.asarray(load_image(p))
+        if a.shape == img.shape and np.array_equal(a, img):
+            img_ok.append(sep)
+    except Exception:
+        pass
+    p = os.path.join(tmp, f"t{k}.txt")
+    np.savetxt(p, tab, delimiter=sep, fmt="%.17g")
+    try:
+        t = load_table(p).to_numpy()
+        if t.shape == tab.shape and np.array_equal(t, tab):
+            tab_ok.append(sep)
+    except Exception:
+        pass
+KW = ["center", "top_left", "top_right", "bottom_left", "bottom_right", "centre", "left", "right", "top", "bottom",
+      "middle", "center_left", "upper_left", "CENTER"]
+aligns, offsets = [], []
+SHAPES = [((2, 3), (5, 8)), ((5, 8), (2, 3)), ((2, 3), (5, 7)), ((4, 7), (1, 2)), ((3, 3), (3, 3))]
+for kw in KW:
+    try:
+        fit_into_array(np.ones((1, 1)), (2, 2), align=kw)
+    except Exception:
+        continue
+    aligns.append(kw)
+    for (ay, ax), (oy, ox) in SHAPES:
+        # the offset of input pixel (0, 0): mark every input pixel with its own index, find where they land
+        arr = np.arange(1, ay * ax + 1, dtype=float).reshape(ay, ax)
+        out = fit_into_array(arr, (oy, ox), align=kw)
+        pos = None
+        for i in range(oy):
+            for j in range(ox):
+                v = out[i, j]
+                if v != 0:
+                    r, c = divmod(int(v) - 1, ax)
+                    pos = (i - r, j - c)
+                    break
+            if pos:
+                break
+        if pos is not None:
+            offsets.append([kw, [ay, ax], [oy, ox], list(pos)])
+print(json.dumps({"img": img_ok, "tab": tab_ok, "aligns": aligns, "offsets": offsets}))
+"""
 
 
 def lchar(c: str) -> str:
     return {"\t": "'\\t'", "'": "'\\''", "\\": "'\\\\'", "\n": "'\\n'"}.get(c, f"'{c}'")
 
 
-def _tuple_of_chars(node):
-    if isinstance(node, (ast.Tuple, ast.List)):
-        try:
-            vals = [ast.literal_eval(e) for e in node.elts]
-        except Exception:
-            return None
-        if vals and all(isinstance(v, str) and len(v) == 1 for v in vals):
-            return vals
-    return None
-
-
 def gen() -> str:
-    img_seps: list[str] = []
-    tab_seps: list[str] = []
-    aligns: list[str] = []
-    mod = parse("pyxel/inputs/loader.py")
-    f = find_func(mod, "load_image")
-    if f is not None:
-        for n in ast.walk(f):
-            if isinstance(n, ast.For) and isinstance(n.target, ast.Name) and n.target.id == "sep":
-                v = _tuple_of_chars(n.iter)
-                if v:
-                    img_seps = v
-    f = find_func(mod, "load_table")
-    if f is not None:
-        for n in ast.walk(f):
-            if isinstance(n, (ast.Assign, ast.AnnAssign)):
-                t = n.targets[0] if isinstance(n, ast.Assign) else n.target
-                if isinstance(t, ast.Name) and t.id == "valid_delimiters":
-                    v = _tuple_of_chars(n.value)
-                    if v:
-                        tab_seps = v
-    cls = find_class(parse("pyxel/util/image.py"), "Alignment")
-    if cls is not None:
-        for st in cls.body:
-            if isinstance(st, ast.Assign) and isinstance(st.value, ast.Constant) and isinstance(st.value.value, str):
-                aligns.append(st.value.value)
+    res = run_in_repo(PROBE, timeout=300)
+    if res is None:
+        return "-- probe did not run\n" + FALLBACK
+    offs = ", ".join(f"({lstr(k)}, ({a[0]}, {a[1]}), ({o[0]}, {o[1]}), (({p[0]} : Int), ({p[1]} : Int)))" for k, a, o, p in res["offsets"])
     return (
-        f"def imageSeparators : List Char := {llist(img_seps, lchar)}\n"
-        f"def tableSeparators : List Char := {llist(tab_seps, lchar)}\n"
-        f"def alignments : List String := {llist(aligns)}"
+        f"def imageSeparators : List Char := {llist(res['img'], lchar)}\n"
+        f"def tableSeparators : List Char := {llist(res['tab'], lchar)}\n"
+        f"def alignments : List String := {llist(res['aligns'])}\n"
+        f"def alignOffsets : List (String × (Nat × Nat) × (Nat × Nat) × (Int × Int)) := [{offs}]"
     )
